@@ -238,6 +238,23 @@ def streams(rng, tier):
     out.append(("dots", dots))
     # ---- hostile values: totality, purity, footer
     out.append(("hostile", hostile_cases(rng, 500 if not thorough else 5000)))
+    # ---- objects with a past: printed before in another state, then brought to the case's contents by in-place
+    #      writes (values.lived_in / lived_in_table) and - for mutable cells - by changing the cell OBJECT in place
+    #      (v[0].append(x): no write to the vector at all).  repr shows the current contents.
+    past = []
+    for name, cases in out:
+        cand = [c for c in cases if c.get("mode") == "full" and c.get("glob") == "keep"
+                and (len(c.get("vals") or []) >= 2 or (c.get("cols") and len(c["cols"][0][1]) >= 2))]
+        for c in rng.sample(cand, min(len(cand), 150 if not thorough else 1500)):
+            past.append(dict(c, past=rng.randrange(1 << 30)))
+    for n in (2, 3, 7, 14):
+        cells = [["l", [["i", 10 * i + j] for j in range(1 + i % 3)]] for i in range(n)]
+        past.append({"k": "vec", "vals": cells, "name": None, "glob": "keep", "mode": "hostile", "past": 1})
+        past.append({"k": "tbl", "cols": [[["s", "tags"], cells], [["s", "id"], [["i", i] for i in range(n)]]],
+                     "glob": "keep", "override": "keep", "mode": "hostile", "past": 2})
+        past.append({"k": "vec", "vals": [["D", [[["s", "k"], ["i", i]]]] for i in range(n)], "name": ["s", "d"],
+                     "glob": "keep", "mode": "hostile", "past": 3})
+    out.append(("past", past))
     return out
 
 
@@ -344,6 +361,56 @@ def _snap(obj, is_tbl):
             "names": [V.enc(n) for n in obj.column_names()], "rr": obj._repr_rows, "shape": list(obj.shape)}
 
 
+def _with_past(case):
+    """the case's object, but one that was printed before while it held other contents (None if that cannot be done)"""
+    from serif import Table, Vector
+
+    def shorten(vals):
+        """mutable cells lose their last item now and get it back IN PLACE after the first repr"""
+        later = []
+        for x in vals:
+            if isinstance(x, list) and x:
+                later.append((x, "l", x.pop()))
+            elif isinstance(x, dict) and x:
+                k = next(reversed(x))
+                later.append((x, "d", (k, x.pop(k))))
+        return later
+
+    def restore(later):
+        for x, kind, item in later:
+            if kind == "l":
+                x.append(item)
+            else:
+                x[item[0]] = item[1]
+    try:
+        if case["k"] == "vec":
+            kw = {}
+            if case.get("dtype"):
+                kw["dtype"] = {"int": int, "float": float, "str": str}[case["dtype"]]
+            nm = None if case["name"] is None else _dec(case["name"])
+            vals = [_dec(x) for x in case["vals"]]
+            if any(isinstance(x, (list, dict)) and x for x in vals):
+                later = shorten(vals)
+                v = Vector(vals, name=nm, **kw)
+                repr(v)
+                restore(later)
+                return v
+            return V.lived_in(lambda xs: Vector(xs, name=nm, **kw), vals, case["past"])
+        names = [None if nm is None else _dec(nm) for nm, _ in case["cols"]]
+        cols = [[_dec(x) for x in vals] for _, vals in case["cols"]]
+        if any(isinstance(x, (list, dict)) and x for c in cols for x in c):
+            later = [it for c in cols for it in shorten(c)]
+            t = Table([Vector(c, name=nm) for nm, c in zip(names, cols)])
+            repr(t)
+            restore(later)
+            return t
+        t, ok = V.lived_in_table(lambda cs: Table([Vector(list(c), name=nm) for nm, c in zip(names, cs)]), cols,
+                                 case["past"], warm=lambda tt: repr(tt))
+        return t if ok else None
+    except Exception:                                        # noqa: BLE001
+        return None
+
+
 def observe(case):
     import serif
     import serif.display as D
@@ -353,14 +420,24 @@ def observe(case):
         if case["glob"] != "keep":
             serif.set_repr_rows(case["glob"][1])
         is_tbl = case["k"] == "tbl"
+        if case.get("past") is not None:
+            obj0 = _with_past(case)
+        else:
+            obj0 = None
         if is_tbl:
             cols = [Vector([_dec(x) for x in vals], name=None if nm is None else _dec(nm)) for nm, vals in case["cols"]]
             obj = Table(cols) if cols else Table()
+            if obj0 is not None and isinstance(obj0, Table) and _snap(obj0, True) == _snap(obj, True):
+                fresh_obj = obj
+                obj, cols = obj0, list(obj0.cols())
+                out["past_ok"] = True
             # Vector([Vector, ...]) of equal lengths is itself a Table: a "column" that is a table makes the
             # object a table of tables (a tensor), which is neither a vector nor a table of columns
             out["tensor_cols"] = any(isinstance(c, Table) for c in cols)
             if case["override"] != "keep":
                 obj._repr_rows = case["override"][1]
+                if out.get("past_ok"):
+                    fresh_obj._repr_rows = case["override"][1]
             out["schema"] = [V.schema_obs(c.schema()) for c in obj.cols()]
             out["shape"] = [int(x) for x in obj.shape]
             out["istable"] = isinstance(obj, Table)
@@ -369,6 +446,10 @@ def observe(case):
             if case.get("dtype"):
                 kw["dtype"] = {"int": int, "float": float, "str": str}[case["dtype"]]
             obj = Vector([_dec(x) for x in case["vals"]], name=None if case["name"] is None else _dec(case["name"]), **kw)
+            if obj0 is not None and not isinstance(obj0, Table) and _snap(obj0, False) == _snap(obj, False):
+                fresh_obj = obj
+                obj = obj0
+                out["past_ok"] = True
             out["schema"] = V.schema_obs(obj.schema())
             out["istable"] = isinstance(obj, Table)
         out["limit"] = getattr(D, "_REPR_ROWS_DEFAULT", None)
@@ -381,6 +462,10 @@ def observe(case):
             else:
                 out["repr"] = s
                 out["same"] = (repr(obj) == s)
+                if out.get("past_ok"):
+                    fr = repr(fresh_obj)
+                    if fr != s:
+                        out["stale"] = [s[:300], fr[:300]]
         except Exception as e:
             out["exc"] = err_name(e)
             out["msg"] = f"{type(e).__name__}: {e}"[:160]
@@ -794,6 +879,9 @@ def oracle(case, obs):
         return f"impure: repr changed the object ({obs.get('impure')})"
     if not obs["same"]:
         return "impure: two consecutive repr() calls gave different strings"
+    if obs.get("stale"):
+        return (f"stale: the object was printed before in another state; its repr now is {obs['stale'][0]!r}, a freshly "
+                f"built object with the same contents prints {obs['stale'][1]!r}")
     if obs.get("tensor_cols"):
         return None                       # a table of tables: totality and purity only
     return _judge(case, obs, reading(case, obs))
